@@ -124,6 +124,12 @@ func (c *fRegistryImpl) dispatch(opid uint64, frame []byte) error {
 	}
 	c.mu.RUnlock()
 
-	resultC <- frame
+	// Never block the transport's read path: a request takes a single
+	// response, so a frame that finds the channel full is a duplicate.
+	select {
+	case resultC <- frame:
+	default:
+		logger().Warn("frugal: discarding duplicate response for in-flight context")
+	}
 	return nil
 }
